@@ -46,6 +46,7 @@ type Config struct {
 	StopOnFirst bool
 	MaxPaths    int
 	NumCPU      int
+	GlobalCoins bool // math/rand.Float32 (package level) is a forked coin; else always tails (level 0)
 	SchedFree   bool // at blocking points the next thread is a free (forked) choice; else lowest id
 }
 
